@@ -51,8 +51,11 @@ static int parse_tag(const std::string &s)
 static void exp_begin(int x, const std::string &items)
 {
   emitf("{\"e\":\"XBegin\",\"x\":%d,\"batch\":[%s]}", x, items.c_str());
-  for (int i = 0; i < g_lat; ++i)
-    vs::point(vs::K_USER, nullptr);
+  if (g_lat == 9)
+    std::this_thread::sleep_for(std::chrono::milliseconds(5));  // a really slow Export (virtual time)
+  else
+    for (int i = 0; i < g_lat; ++i)
+      vs::point(vs::K_USER, nullptr);
 }
 static sdkcommon::ExportResult exp_end(int x)
 {
@@ -186,7 +189,7 @@ struct TraceSide
     span->End();
   }
   bool flush(std::chrono::microseconds t) { return prov->ForceFlush(t); }
-  bool shutdown() { return prov->Shutdown(); }
+  bool shutdown(std::chrono::microseconds t) { return prov->Shutdown(t); }
   void destroy()
   {
     tracer = nostd::shared_ptr<opentelemetry::trace::Tracer>();
@@ -227,7 +230,7 @@ struct LogSide
     logger->EmitLogRecord(opentelemetry::logs::Severity::kInfo, nostd::string_view(keep.back()));
   }
   bool flush(std::chrono::microseconds t) { return prov->ForceFlush(t); }
-  bool shutdown() { return prov->Shutdown(); }
+  bool shutdown(std::chrono::microseconds t) { return prov->Shutdown(t); }
   void destroy()
   {
     logger = nostd::shared_ptr<opentelemetry::logs::Logger>();
@@ -267,8 +270,10 @@ static void run_scenario(const Scenario &sc)
     if (!sc.destroy)
       for (int s = 0; s < sc.ns; ++s)
         others.emplace_back([&, s]() {
-          emitf("{\"e\":\"SDCall\",\"s\":%d}", s);
-          bool r = side.shutdown();
+          // Shutdown timeout classes rotate like the flush ones: 1 ms, 12 ms, max, zero
+          int cls = (sc.fto + 1 + s) % 4;
+          emitf("{\"e\":\"SDCall\",\"s\":%d,\"to\":%d}", s, cls);
+          bool r = side.shutdown(fto_value(cls));
           emitf("{\"e\":\"SDRet\",\"s\":%d,\"r\":%s}", s, r ? "true" : "false");
         });
     for (auto &t : producers)
@@ -305,7 +310,11 @@ static Scenario draw(uint64_t seed)
   sc.nr      = 1 + (int)(r() % 3);
   sc.nf      = (int)(r() % 3);
   sc.ns      = 1 + (int)(r() % 2);
-  sc.lat     = (int)(r() % 3);
+  sc.lat     = (int)(r() % 5);
+  if (sc.lat == 3)
+    sc.lat = 8;
+  if (sc.lat == 4)
+    sc.lat = 9;  // Export sleeps 5 ms of virtual time
   sc.fto     = (int)(r() % 4);
   sc.expfail = (int)(r() % 4);
   if (sc.expfail == 3)
@@ -369,6 +378,7 @@ static int explore(int argc, char **argv)
     }
     cfg.max_steps        = 60000;
     cfg.fair_extra_steps = 60000;
+    cfg.spin_limit       = 1500;  // yields consume virtual time; let timeout-polling loops run their course
     std::string kinds;
     for (char c : sc.procs)
       kinds += std::string(kinds.empty() ? "" : ",") + "\"" + c + "\"";
